@@ -212,12 +212,12 @@ impl Monitor for C18 {
     }
     fn gens(&self, tier: Tier) -> Vec<(&'static str, u64)> {
         match tier {
-            Tier::Quick => vec![("states_quick", 2 + 64 * 16), ("seeds", 3600), ("clock", 200), ("tensor_random", 20_000)],
-            Tier::Thorough => vec![("states_all", (M - 1 + CHUNK - 1) / CHUNK), ("seeds", 60_000), ("clock", 1000), ("tensor_random", 200_000)],
+            Tier::Quick => vec![("states_quick", 2 + 64 * 16), ("seeds", 3600), ("clock", 200), ("tensor_random", 20_000), ("huge_shuffle", 4)],
+            Tier::Thorough => vec![("states_all", (M - 1 + CHUNK - 1) / CHUNK), ("seeds", 60_000), ("clock", 1000), ("tensor_random", 200_000), ("huge_shuffle", 24)],
         }
     }
     fn rule(&self) -> &'static str {
-        "states_*: one case per chunk of seeds s; create(s) + one draw visits generator state 48271*s mod m (a bijection on [1,m-1]); per state: generate() over a 12-pair (min,max) panel (incl. two intervals whose width overflows f32) must be finite and in [min,max], shuffle(len 1) and shuffle(len 2..6) must return a permutation without panicking, states whose unit draw is >= 0.999999 are swept over every len 1..200; distinct = number of distinct states visited. seeds: seed classes (0, 1, small, around m, multiples of m, 2^32, >3.8e14, u64::MAX, timestamps) x lengths 0..200: no panic, permutation (index vectors; vectors with repeated entries and vectors with entries of any magnitude - 64-bit hashes, usize::MAX - k, powers of two up to 2^63: same multiset), one generator object shuffling twelve vectors of changing length in turn, purity (same seed twice; same seed while a second generator draws and shuffles in between). clock: Tensor::random's possible clock seeds (subsec_micros in [0,1e6)) replayed through Generator for 256 draws. tensor_random: Tensor::random itself for every rank (extents 1..6; in every eighth request one extent, at any position, is 0: the empty nesting must come back as requested); every third request follows a request for a shape the library refuses (rank 5 / nested), which must not disturb it."
+        "states_*: one case per chunk of seeds s; create(s) + one draw visits generator state 48271*s mod m (a bijection on [1,m-1]); per state: generate() over a 12-pair (min,max) panel (incl. two intervals whose width overflows f32) must be finite and in [min,max], shuffle(len 1) and shuffle(len 2..6) must return a permutation without panicking, states whose unit draw is >= 0.999999 are swept over every len 1..200; distinct = number of distinct states visited. seeds: seed classes (0, 1, small, around m, multiples of m, 2^32, >3.8e14, u64::MAX, timestamps) x lengths 0..200: no panic, permutation (index vectors; vectors with repeated entries and vectors with entries of any magnitude - 64-bit hashes, usize::MAX - k, powers of two up to 2^63: same multiset), one generator object shuffling twelve vectors of changing length in turn, purity (same seed twice; same seed while a second generator draws and shuffles in between). clock: Tensor::random's possible clock seeds (subsec_micros in [0,1e6)) replayed through Generator for 256 draws. tensor_random: Tensor::random itself for every rank (extents 1..6; in every eighth request one extent, at any position, is 0: the empty nesting must come back as requested); every third request follows a request for a shape the library refuses (rank 5 / nested), which must not disturb it. huge_shuffle: index vectors of 2^24 + {1, 3, 4, 8, 12, 20, 36, 100} entries (positions a single-precision index cannot name exactly): no panic, every index exactly once."
     }
     fn assumptions(&self) -> Vec<&'static str> {
         vec![
@@ -385,6 +385,38 @@ impl Monitor for C18 {
                 out.evals = n;
                 out.distinct = Some(n);
                 out.count("clock_seeds_replayed_256_draws_each", n);
+                out
+            }
+            "huge_shuffle" => {
+                // lengths beyond 2^24, where an index kept in single precision cannot name every
+                // position (the last index may round up to the length)
+                let m = 1usize << 24;
+                let lens = [m + 4, m + 8, m + 1, m + 12, m + 3, m + 100, m + 20, m + 36];
+                let len = lens[(idx as usize) % lens.len()];
+                let s = 1 + idx * 7919 + seed;
+                let mut out = Out::new(format!("shuffle of {} entries, seed {}", len, s));
+                let r = guard(|| {
+                    let mut v: Vec<usize> = (0..len).collect();
+                    let mut g = Generator::create(s);
+                    g.shuffle(&mut v);
+                    // every index exactly once
+                    let mut seen = vec![false; len];
+                    let mut ok = v.len() == len;
+                    for x in v.iter() {
+                        if *x >= len || seen[*x] {
+                            ok = false;
+                            break;
+                        }
+                        seen[*x] = true;
+                    }
+                    ok
+                });
+                out.count("shuffles_of_more_than_2^24_entries", 1);
+                match r {
+                    Ok(true) => {}
+                    Ok(false) => out.viol("shuffle:huge:not-a-permutation", format!("seed {}: shuffling 0..{} did not return a permutation", s, len), J::Null),
+                    Err(m) => out.viol(&format!("shuffle:huge:panic:{}", classify_panic(&m)), format!("seed {}: shuffle of {} entries panicked: {}", s, len, short(&m, 160)), J::Null),
+                }
                 out
             }
             "tensor_random" => {
